@@ -2,7 +2,11 @@
 (* Case generator for the spec->code replay of Ledger: every state is one well-formed ledger over the generator
    alphabet (built by appending one directive per step); one JSON line per ledger with the rows the specification
    says the ten tables must show (every modelled column, every lookup for every key of Keys). *)
-EXTENDS MC_Ledger
+EXTENDS MC_Ledger, IOUtils
+
+(* the output is consumed in portions: GEN_PART = p in 0..7 keeps the ledgers whose first directive has index
+   = p modulo 8; GEN_PART = -1 keeps all *)
+Part == CHOOSE p \in -1..7 : ToString(p) = IOEnv.GEN_PART
 
 GInit ==
     /\ lx = <<>> /\ tab = "postings" /\ ei = 0 /\ pj = 0
@@ -11,6 +15,7 @@ GInit ==
 GNext ==
     /\ Len(lx) < MaxLen
     /\ \E letter \in 1..Len(Alpha) :
+          /\ (Len(lx) = 0 /\ Part >= 0) => letter % 8 = Part
           /\ WellFormed(LedgerOf(Append(lx, letter)))
           /\ lx' = Append(lx, letter)
     /\ UNCHANGED <<tab, ei, pj, ctx, emitted, dir, done>>
